@@ -974,7 +974,7 @@ func S14(rc *RC) {
 		}
 		return out
 	}
-	for _, fi := range rc.P.SortedFuncs() {
+	for _, fi := range rc.P.AnalysisFuncs() {
 		if fi.Pkg != rc.P.Root || fi.Decl.Body == nil || strings.HasPrefix(fi.File, "sparse") || strings.HasSuffix(fi.File, "_test.go") {
 			continue
 		}
